@@ -162,7 +162,7 @@ func v1Check(c *Ctx, kind, tok string, rp c19Replay, wantDump string) (accepted 
 }
 
 func runC19(c *Ctx) {
-	c.Res.Rule = "version-1 claims of all seven kinds from the reflective generator (every field set or not, int64 edges, special strings) x every signer role the v1 library permits (and, in a fifth of the cases, the claim's own subject key - self-signed - or a key of an arbitrary role: a token Encode emits must be accepted by its own decoder): v1 Encode -> own decoder: all fields preserved (reflective compare modulo nil/empty); every token also through the Lean model of v1 Encode and Decode; single-character substitutions / insertions / deletions in payload and signature (sampled in quick, exhaustive positions on a pool in thorough): refused or identical content; alterations that leave the base64url alphabet (padding, +, /, line breaks, blanks in every segment); forged wrong-role issuers (correctly signed; also naming themselves as subject); v2-header tokens. non-trivial = distinct tokens."
+	c.Res.Rule = "version-1 claims of all seven kinds from the reflective generator (every field set or not, int64 edges, special strings) x every signer role the v1 library permits (and, in a fifth of the cases, the claim's own subject key - self-signed - or a key of an arbitrary role: a token Encode emits must be accepted by its own decoder): v1 Encode -> own decoder: all fields preserved (reflective compare modulo nil/empty); every token also through the Lean model of v1 Encode and Decode; single-character substitutions / insertions / deletions in payload and signature (sampled in quick, exhaustive positions on a pool in thorough): refused or identical content; alterations that leave the base64url alphabet (padding, +, /, line breaks, blanks in every segment); forged wrong-role issuers (correctly signed; also naming themselves as subject; also with the payload's own `type` member removed, unknown, or naming another kind); v2-header tokens. non-trivial = distinct tokens."
 	type vt struct{ kind, tok, dump string }
 	var pool []vt
 	n := c.N(400, 40000)
@@ -280,18 +280,26 @@ func runC19(c *Ctx) {
 		pb, _ := b64.DecodeString(segs[1])
 		for _, role := range []byte{'O', 'A', 'U', 'N', 'C'} {
 			kp := kpN(role, 7)
-			for _, self := range []bool{false, true} {
-				// self = true: the forged issuer also names itself as subject (a key minting its own claim)
+			for variant := 0; variant < 5; variant++ {
+				// self: the forged issuer also names itself as subject (a key minting its own claim); the other variants
+				// change what the payload says about its own kind (absent, unknown, another kind's name): the role rule
+				// belongs to the decoder that is called, not to anything the token says
+				self := variant == 1
 				payload := setJSONPath(string(pb), func(m map[string]interface{}) {
 					m["iss"] = pubOf(kp)
 					if self {
 						m["sub"] = pubOf(kp)
 					}
+					switch variant {
+					case 2:
+						delete(m, "type")
+					case 3:
+						m["type"] = "something-else"
+					case 4:
+						m["type"] = []string{"operator", "account", "user", "activation", "cluster", "server"}[c.R.Intn(6)]
+					}
 				})
-				how := "forged-"
-				if self {
-					how = "forged-selfsigned-"
-				}
+				how := []string{"forged-", "forged-selfsigned-", "forged-notype-", "forged-unknowntype-", "forged-othertype-"}[variant]
 				for _, hdr := range []string{hdrV1, hdrV2, `{"typ":"JWT","alg":"ED25519"}`, `{"typ":"jwt","alg":"ed25519-nkey"}`, `{"typ":"jwt","alg":"none"}`} {
 					for _, lay := range []string{"v1", "v2"} {
 						t := forge(hdr, payload, kp, lay)
